@@ -13,10 +13,11 @@
   Only property theorems live here; helper lemmas are in Proofs/StateSpaceMaker.lean.
 -/
 import Lcapy.Proofs.StateSpaceMaker
+import Lcapy.Proofs.StateSpaceTime
 import Lcapy.Props.C01
 import Mathlib.Tactic.NormNum
 namespace Lcapy.C15
-open Lcapy.MNA Lcapy.SSMaker Ix
+open Lcapy.MNA Lcapy.SSMaker Lcapy.TDS Ix
 variable {K : Type} [Field K] [DecidableEq K]
 
 /-- the integrator law of the component at position `p`, with `dv p` the time derivative of its state variable and
@@ -150,6 +151,71 @@ theorem ss_from_circuit (solver : List (Cpt K) → Ix → K) (cs : List (Cpt K))
       rw [hi (p, c) hpc, hoI p c hpc]
       exact reads_outI M.base p c z _ w (fun i hi' => huniq i (Or.inl ⟨(p, c), hpc, hi'⟩))
 
+/-! ### the time domain: signals instead of values -/
+
+omit [DecidableEq K] in
+/-- **ss_time_domain**: for every netlist whose inductors are uncoupled (branch indices below `base`), functions of
+    time `z` (node voltages, branch currents), source waveforms `uw` and ANY operator `D` in the role of d/dt:
+    the TIME-DOMAIN laws of the circuit (Spec/LawsTD.lean: KCL, i = C dv/dt, v = L di/dt, every instantaneous
+    relation) hold  iff  at every instant the resistive laws of StateSpaceMaker's substituted circuit hold for the
+    present values of the states and sources, together with the integrator laws. -/
+theorem ss_time_domain {T : Type} (base : Nat) (D : (T → K) → (T → K)) (cs : List (Cpt K))
+    (hok : ∀ c ∈ cs, TimeOk base c) (z : Ix → T → K) (uw : Nat → T → K) :
+    LawsTD (fnOps D) (withWaveFrom uw 0 cs) z ↔
+      ∀ t, Laws .time 0 (subst base (wAt cs z uw t) cs) (zxAt base D cs z t) ∧
+           ∀ pc ∈ enumFrom 0 cs, Integrator base (zxAt base D cs z t) (dvAt D cs z t) pc.1 pc.2 := by
+  have hInt : ∀ t, (∀ pc ∈ enumFrom 0 cs, Integrator base (zxAt base D cs z t) (dvAt D cs z t) pc.1 pc.2) ↔
+      (∀ pc ∈ enumFrom 0 cs, IndLaw D z t pc.2) := by
+    intro t
+    refine forall_congr' fun pc => forall_congr' fun hpc => ?_
+    obtain ⟨q, c⟩ := pc
+    have hd := dvAt_spec D cs z t (q, c) hpc
+    have hx := (zxAt_extends base D cs z t).2.2 (q, c) hpc
+    have hvd := vd_ext z t (zxAt base D cs z t) (fun k => rfl)
+    cases c <;> simp only [Integrator, IndLaw, stateDeriv] at *
+    case Cap n1 n2 cv v0 => rw [hd, hx]; simp
+    case Ind n1 n2 m l i0 coup => rw [hd, hvd]
+  constructor
+  · rintro ⟨hk, hl⟩ t
+    have hlaw := (laws_list_at base D z uw t (zxAt base D cs z t) (wAt cs z uw t) cs 0 (zxAt_extends base D cs z t) hok
+      (wAt_spec cs z uw t)).mp (fun sc hsc q hq => congrFun (hl sc hsc q hq) t)
+    refine ⟨⟨fun k hk0 => ?_, hlaw.1⟩, (hInt t).mpr hlaw.2⟩
+    have := kcl_at base D z uw t (zxAt base D cs z t) (wAt cs z uw t) k cs 0 (zxAt_extends base D cs z t) hok
+      (wAt_spec cs z uw t)
+    simp only [subst]
+    rw [← this, hk k hk0]; rfl
+  · intro h
+    refine ⟨fun k hk0 => funext fun t => ?_, fun sc hsc q hq => funext fun t => ?_⟩
+    · have := kcl_at base D z uw t (zxAt base D cs z t) (wAt cs z uw t) k cs 0 (zxAt_extends base D cs z t) hok
+        (wAt_spec cs z uw t)
+      rw [this]
+      exact (h t).1.1 k hk0
+    · exact (laws_list_at base D z uw t (zxAt base D cs z t) (wAt cs z uw t) cs 0 (zxAt_extends base D cs z t) hok
+        (wAt_spec cs z uw t)).mpr ⟨(h t).1.2, (hInt t).mp (h t).2⟩ sc hsc q hq
+
+/-- **ss_along_solutions**: every time-domain solution of the circuit -- signals obeying KCL, i = C dv/dt, v = L di/dt
+    and the instantaneous relations, for any source waveforms and any derivative operator -- satisfies, at every instant,
+    the state equation  dx/dt = A x + B u  and the output equation  y = C x + D u  with the matrices of the model. -/
+theorem ss_along_solutions {T : Type} (solver : List (Cpt K) → Ix → K) (cs : List (Cpt K)) (onodes : List Nat) (M : SSM K)
+    (hM : ssModel solver cs = some M) (hwf : C01.WF (subst M.base (fun _ => 0) cs)) (hval : ∀ c ∈ cs, ValueOk c)
+    (hns : NonsingularOn (ssReads M.base cs onodes) (subst M.base (fun _ => 0) cs))
+    (hok : ∀ c ∈ cs, TimeOk M.base c)
+    (D : (T → K) → (T → K)) (z : Ix → T → K) (uw : Nat → T → K)
+    (hlaws : LawsTD (fnOps D) (withWaveFrom uw 0 cs) z) (t : T) :
+    (∀ pc ∈ enumFrom 0 cs, role pc.2 = .ind ∨ role pc.2 = .cap →
+        stateDeriv D z t pc.2 = ssValue (dotx M.base pc.1 pc.2) M cs (wAt cs z uw t)) ∧
+    (∀ k ∈ onodes, volt (fun i => z i t) k = ssValue (outV k) M cs (wAt cs z uw t)) := by
+  obtain ⟨hl, hint⟩ := (ss_time_domain M.base D cs hok z uw).mp hlaws t
+  have hss := (ss_from_circuit solver cs onodes M hM hwf hval hns (wAt cs z uw t) (dvAt D cs z t)
+    (fun k => volt (fun i => z i t) k) (fun p => outI M.base p ((lookupFrom 0 cs p).getD (.Open 0 0)) (zxAt M.base D cs z t)
+      (wAt cs z uw t))).mpr
+    ⟨zxAt M.base D cs z t, hl, hint, fun k _ => (volt_ext z t _ (fun _ => rfl) k).symm, by
+      rintro ⟨q, c⟩ hpc
+      simp only [lookupFrom_enum cs 0 q c hpc, Option.getD_some]⟩
+  refine ⟨fun pc hpc hr => ?_, fun k hk => hss.2.1 k hk⟩
+  rw [← dvAt_spec D cs z t pc hpc]
+  exact hss.1 pc hpc hr
+
 /-! ### non-vacuity: `V1 1 0 {u}; R1 1 2 3; C1 2 0 4`  (dv_C/dt = (u − v_C)/12) -/
 
 def rcCkt : List (Cpt ℚ) := [.V 1 0 0 0, .R 1 2 3, .Cap 2 0 4 none]
@@ -191,6 +257,32 @@ theorem rc_nonsingular : NonsingularOn (ssReads 1 rcCkt [1, 2]) (subst 1 (fun _ 
     · rcases hi with rfl | rfl <;> assumption
     · subst hi; exact e3
   · simp at hk; rcases hk with rfl | rfl <;> assumption
+
+/-- hypotheses of `ss_time_domain` / `ss_along_solutions` on the example: branch 0 lies below the base 1 -/
+example : ∀ c ∈ rcCkt, TimeOk 1 c := by
+  intro c hc; simp [rcCkt] at hc; rcases hc with rfl | rfl | rfl <;> simp [TimeOk, brRefs]
+
+/-- … and a time-domain solution: u = 5 constant, v_C = 5, no current (with the zero operator for d/dt on constants) -/
+def rcConst : Ix → Unit → ℚ
+  | node 1 => fun _ => 5
+  | node 2 => fun _ => 5
+  | _ => fun _ => 0
+
+example : LawsTD (fnOps (fun _ => fun _ => (0 : ℚ))) (withWaveFrom (fun _ _ => 5) 0 rcCkt) rcConst := by
+  constructor
+  · intro k hk
+    funext t
+    match k with
+    | 0 => exact absurd rfl hk
+    | 1 => norm_num [rcCkt, withWaveFrom, sumS, outflowS, twoTermS, vdS, voltS, fnOps, rcConst]
+    | 2 => norm_num [rcCkt, withWaveFrom, sumS, outflowS, twoTermS, vdS, voltS, fnOps, rcConst]
+    | (k + 3) => simp [rcCkt, withWaveFrom, sumS, outflowS, twoTermS, fnOps]
+  · intro c hc q hq
+    simp [rcCkt, withWaveFrom] at hc
+    rcases hc with rfl | rfl | rfl <;> simp [lawsS] at hq
+    subst hq
+    funext t
+    norm_num [vdS, voltS, fnOps, rcConst]
 
 /-- the entry the model extracts: A = −1/12, B = 1/12 -/
 example : ∀ M, ssModel rcSolver rcCkt = some M →
